@@ -24,6 +24,7 @@ import (
 	"github.com/icon-project/goloop/common/codec"
 	"github.com/icon-project/goloop/common/crypto"
 	"github.com/icon-project/goloop/common/db"
+	"github.com/icon-project/goloop/common/errors"
 	"github.com/icon-project/goloop/common/merkle"
 	"github.com/icon-project/goloop/module"
 )
@@ -88,6 +89,15 @@ func NewDigestFromHashAndBytes(
 		_, err := codec.UnmarshalFromBytes(bytes, &core.format)
 		if err != nil {
 			return nil, err
+		}
+		for _, ntd := range core.format.NetworkTypeDigests {
+			for _, nd := range ntd.NetworkDigests() {
+				if nd.NetworkID() < 0 {
+					return nil, errors.IllegalArgumentError.Errorf(
+						"negative network id %d", nd.NetworkID(),
+					)
+				}
+			}
 		}
 	}
 	return &digest{
